@@ -145,3 +145,76 @@ func UseHolder(h *holder) uint {
 	_, t := h.removeAll()
 	return t
 }
+
+// G11: the per-triplet test hoisted out of the loop forgets the two header bytes.
+func cursorWalkWrong(payload []byte) int {
+	if len(payload) < 1 {
+		return 0
+	}
+	n := int(payload[0] & 0x1f)
+	pos := 2
+	if len(payload) < 3*n {
+		return 0
+	}
+	sum := 0
+	for i := 0; i < n; i++ {
+		sum += int(payload[pos]) + int(payload[pos+2])
+		pos += 3
+	}
+	return sum
+}
+
+// G11 (negative): the same walk with the right hoisted test must be accepted.
+func cursorWalkRight(payload []byte) int {
+	if len(payload) < 1 {
+		return 0
+	}
+	n := int(payload[0] & 0x1f)
+	pos := 2
+	if len(payload) < 2+3*n {
+		return 0
+	}
+	sum := 0
+	for i := 0; i < n; i++ {
+		sum += int(payload[pos]) + int(payload[pos+2])
+		pos += 3
+	}
+	return sum
+}
+
+// L-LOCKSTEP: counter and list stepped together in one place, the counter alone in another.
+type stepper struct {
+	n    int
+	list []int
+}
+
+func (s *stepper) both(v int) {
+	s.n++
+	s.list = append(s.list, v)
+}
+
+func (s *stepper) alone(skip bool, v int) {
+	if skip {
+		s.n++
+		return
+	}
+	s.n++
+	s.list = append(s.list, v)
+}
+
+// UseStepper keeps the methods reachable.
+func UseStepper(s *stepper) {
+	s.both(1)
+	s.alone(true, 2)
+}
+
+// T-REACH: the last entry of a specification table cannot be looked up.
+var AC3SampleRates = []int{48000, 44100, 32000}
+
+func tightLookup(fscod byte) int {
+	rate := AC3SampleRates[0]
+	if int(fscod) < len(AC3SampleRates)-1 {
+		rate = AC3SampleRates[fscod]
+	}
+	return rate
+}
